@@ -189,10 +189,7 @@ class Ref:
             _, sep, x, positive, gather = e
             if positive:
                 return self.closure(x, sep, True, gather, p)
-            try:
-                return self.closure(x, sep, True, gather, p)
-            except PFail:
-                return p, [[]], []
+            return self.closure(x, sep, True, gather, p, fallback=True)
         if k == 'and':
             if has_direct_cut(e[1]):
                 self.flags.add('U7')
@@ -272,35 +269,66 @@ class Ref:
             return self.ev(e[1], p, sc)
         raise ValueError(k)
 
-    def closure(self, x, sep, positive, gather, p):
+    def closure(self, x, sep, positive, gather, p, fallback=False):
+        """closures and joins, by the documented equivalences
+             {x}    = B,  B -> x B | eps          {x}+    = B,  B -> x B | x
+             s%{e}+ = e {s ~ e}                   s%{e}   = s%{e}+ | {}
+        `fallback` is True for the non-positive join/gather (the implicit `| {}`)."""
+        start = p
+        iters = []  # per completed iteration: (startpos, cut executed?, n vals before, n binds before)
         vals, binds = [], []
-        first = True
-        n = 0
+        k = 0
         while True:
+            k += 1
             s2 = Scope()
             p0 = p
             try:
                 q_ = p
                 sv = None
-                if not first and sep is not None:
+                if k > 1 and sep is not None:
                     q_, si, sb = self.ev(sep, q_, s2)
                     sv = (fold(si), sb)
                     s2.cut = True
                 q_, i, b = self.ev(x, q_, s2)
             except PFail:
-                if s2.cut:
-                    self.cutfails.append(('join-after-sep' if sep is not None and not first and sv is not None and not has_direct_cut(x)
-                                          else 'closure-iter1' if first else 'closure-iterN'))
+                if not s2.cut:
+                    if k == 1 and fallback:
+                        return start, [[]], []
+                    if k == 1 and positive:
+                        raise PFail() from None
+                    break
+                # a failure after a cut executed in this iteration
+                if sep is not None:
+                    self.cutfails.append('join-iter1' if k == 1 else 'join-after-sep')
+                    # k == 1: the option `e {s ~ e}` is committed; k > 1: {s ~ e} fails as a whole
+                    if positive and not fallback:
+                        raise PFail() from None
+                    if k == 1 or iters[0][1]:
+                        raise PFail() from None  # first e passed a cut: no fallback to {}
+                    return start, [[]], []
+                self.cutfails.append('closure-iter1' if k == 1 else 'closure-iterN')
+                j = k - 1
+                while j >= 1 and iters[j - 1][1]:
+                    j -= 1
+                if j == 0:
                     raise PFail() from None
-                if first and positive:
-                    raise PFail() from None
+                # B_j -> eps: iterations before j are kept
+                if j > 1 or positive:
+                    self.flags.add('U12')
+                st_, _c, nv, nb = iters[j - 1]
+                del vals[nv:]
+                del binds[nb:]
+                p = st_
                 break
             if q_ == p0:
                 self.flags.add('U2')
-                if first:
+                if k == 1:
                     vals.append(fold(i))
                     binds += b
                 break
+            if k == 1 and sep is not None and positive and not fallback and s2.cut:
+                self.flags.add('U11')  # docs: e of `e {s ~ e}` commits the enclosing option; engine: confined
+            iters.append((p0, s2.cut, len(vals), len(binds)))
             if sv is not None:
                 if not gather:
                     vals.append(sv[0])
@@ -308,12 +336,10 @@ class Ref:
                         self.flags.add('U9')
                 binds += sv[1]
             if not i:
-                self.flags.add('U9')  # an iteration that yields no item: its value (None? dropped?) is not documented
+                self.flags.add('U9')  # an iteration that yields no item: its value is not documented
             vals.append(fold(i))
             binds += b
             p = q_
-            first = False
-            n += 1
         return p, [vals], binds
 
     # ------------------------------------------------------------ rules
